@@ -145,8 +145,24 @@ func vtakeover[K comparable, V any](s *Store[K, V], before int) {
 	s.ctx, s.cancel = context.WithCancel(context.Background())
 }
 
+// vsettled waits until goroutines left over from earlier cases have exited, so that the
+// goroutine count is a reliable signal in vtakeover
+func vsettled() int {
+	last, stable := runtime.NumGoroutine(), 0
+	for i := 0; i < 20000 && stable < 40; i++ {
+		time.Sleep(50 * time.Microsecond)
+		n := runtime.NumGoroutine()
+		if n == last {
+			stable++
+		} else {
+			last, stable = n, 0
+		}
+	}
+	return last
+}
+
 func vnewStore[K comparable, V any](o *StoreOptions[K, V]) *Store[K, V] {
-	before := runtime.NumGoroutine()
+	before := vsettled()
 	s := NewStore(o)
 	vtakeover(s, before)
 	// origin 0: the store's clock reads the virtual wall clock directly
@@ -186,4 +202,4 @@ func clockOff() { clock.VerifNow.Store(nil) }
 // xrandOff returns to the runtime's random source
 func xrandOff() { xruntime.VerifRand.Store(nil) }
 
-func runtimeNumGoroutine() int { return runtime.NumGoroutine() }
+func runtimeNumGoroutine() int { return vsettled() }
